@@ -142,6 +142,9 @@ structure Uow where
   ops : List OpEntry := []                   -- `Operations.objects` (insertion ordered)
   vobjs : List (Nat × List Int × Nat) := []  -- keys of `version_objs`: (class, pk, tx)
   pending : List (Nat × Op × List Int) := [] -- `pending_statements`
+  /-- `lookup_version_objs`: set by a rollback to a savepoint (the cache was emptied, version rows of the
+  transaction may exist uncached); while set, `get_or_create_version_object` looks a missing row up first -/
+  lookup : Bool := false
 deriving Repr
 
 /-- the tables continuum writes, as one connection sees them -/
@@ -328,11 +331,12 @@ def step (cfg : Cfg) (s : St) : Ev → St
   -- the DBMS restores the tables; the unit of work goes back to what it knew at SAVEPOINT
   -- (current transaction, operations and pending association statements as remembered when the
   -- savepoint began; dropped entirely if it did not exist then); the version-object cache is emptied
+  -- and `lookup_version_objs` set
   | .spRollback =>
     match s.sps with
     | [] => s
     | (snap, u) :: rest =>
-      { s with db := snap, uow := u.map (fun u => { u with vobjs := [] }), sps := rest }
+      { s with db := snap, uow := u.map (fun u => { u with vobjs := [], lookup := true }), sps := rest }
 
 def run (cfg : Cfg) (s : St) (evs : List Ev) : St := evs.foldl (step cfg) s
 
